@@ -31,6 +31,9 @@ func factsConditions() {
 	squash := func(t string) string { return strings.Join(strings.Fields(t), "") }
 	has := func(dir, fn string, texts ...string) bool {
 		fd := findFuncAny(dir, fn)
+		if i := strings.Index(fn, "."); i >= 0 { // "Recv.Name"; ".Name" = the free function
+			fd = findFunc(dir, fn[:i], fn[i+1:])
+		}
 		if fd == nil {
 			return false
 		}
@@ -55,6 +58,17 @@ func factsConditions() {
 		{"condGenByPath", cap, "generateFillSpaceListByPathSize", []string{"!sk.allowGenerateNewSpace", "checkOSDiskSizeByPath(path, targetSize-currentSize)", "targetSize-currentSize < int(poc.ProofTypeDefault.PlotSize(bl))"}},
 		{"condCheckDisk", cap, "checkOSDiskSizeByPath", []string{"requiredBytes < 0", "uint64(requiredBytes) >= info.Free"}},
 		{"condConfigureBySize", cap, "ConfigureBySize", []string{"targetSize < poc.ProofTypeDefault.PlotSize(usableBitLength()[0])", "int(targetSize)"}},
+		{"condPlotMem", "poc/engine/massdb/massdb.v1", ".makeAvailableMemory", []string{"requiredMem > maxMem", "requiredMem = maxMem", "requiredMem > available", "available < minMem", "requiredMem = (available / minMem) * minMem", "cache.Update(requiredMem)"}},
+		{"condPlotPassA", "poc/engine/massdb/massdb.v1", "prePlotWork", []string{"uint64(hmA.volume-startPoint)*uint64(recordSize)", "rem := (cache.Len() / recordSize) & 1", "pocutil.PoCValue(cache.Len()/recordSize - rem)", "endPoint := startPoint + calcWindowSize()",
+			"startPoint <= y && y < endPoint", "target := int(y-startPoint) * recordSize", "binary.LittleEndian.PutUint64(b8[:], uint64(x))", "cache.WriteAt(b8[:recordSize], int64(target))",
+			"cache.WriteToWriter(mdb.stopPlotCh, hmA.data, 0, int64(hmA.offset)+int64(startPoint)*int64(recordSize), int64(cache.Len()))", "hmA.checkpoint = endPoint"}},
+		{"condPlotPassB", "poc/engine/massdb/massdb.v1", "plotWork", []string{"uint64(half-startPoint)*uint64(recordSize)<<2", "pocutil.PoCValue((cache.Len() / recordSize) >> 2)", "endPoint := startPoint + calcWindowSize()",
+			"doubleStartPoint, doubleEndPoint := startPoint<<1, endPoint<<1", "!bytesEqualZero(x) && !bytesEqualZero(xp)", "doubleStartPoint <= z && z < doubleEndPoint", "target := int(z-doubleStartPoint) * recordSize * 2",
+			"cache.WriteAt(x, int64(target))", "cache.WriteAt(xp, int64(target+recordSize))", "target := int(zp-doubleStartPoint) * recordSize * 2", "cache.WriteAt(xp, int64(target))", "cache.WriteAt(x, int64(target+recordSize))",
+			"cache.WriteToWriter(mdb.stopPlotCh, hmB.data, 0, int64(hmB.offset)+int64(startPoint)*int64(recordSize)*4, int64(cache.Len()))", "hmB.checkpoint = endPoint", "io.ReadFull(bufRdA, bs)"}},
+		{"condPlotGetB", "poc/engine/massdb/massdb.v1", "HashMapB.Get", []string{"target := hm.offset + int(key)*recordSize*2", "hm.data.ReadAt(proof[:recordSize*2], int64(target))", "return proof[:recordSize], proof[recordSize : recordSize*2], nil"}},
+		{"condPlotCheckpoint", "poc/engine/massdb/massdb.v1", "HashMap.UpdateCheckpoint", []string{"binary.LittleEndian.PutUint64(checkpointByte[:], uint64(hm.checkpoint))", "hm.data.WriteAt(checkpointByte[:], PosCheckpoint)"}},
+		{"condPlotGetProof", "poc/engine/massdb/massdb.v1", "MassDBV1.GetProof", []string{"mdb.HashMapB.Get(pocutil.CutHash(challenge, bl))", "poc.VerifyProof(proof, mdb.pubKeyHash, challenge, filter)"}},
 		{"condMinerSearch", mn, "syncGetBestProof", []string{"workSlot > nowSlot+allowAhead", "i <= nowSlot+allowAhead", "quality.Cmp(bestQuality) > 0", "bestQuality.Cmp(pocTemplate.GetTarget(pocTemplate.Timestamp)) > 0", "bestQuality.SetUint64(0)", "uint64(pocTemplate.Timestamp.Unix()) / pocSlot"}},
 		{"condMinerSubmit", mn, "submitBlock", []string{"time.Now().After(block.MsgBlock().Header.Timestamp)", "m.minedHeight[block.Height()] = struct{}{}"}},
 		{"condMinerDouble", mn, "solveBlock", []string{"m.minedHeight[pocTemplate.Height]", "errAvoidDoubleMining", "m.SpaceKeeper.SignHash(tProof.proof.SpaceID, pocHash)"}},
@@ -198,6 +212,15 @@ func factsKeeper() {
 	intFact("mapTypeA", "poc/engine/massdb/massdb.v1", "MapTypeHashMapA")
 	intFact("mapTypeB", "poc/engine/massdb/massdb.v1", "MapTypeHashMapB")
 	intFact("lenMetaInfo", "poc/engine/massdb/massdb.v1", "LenMetaInfo")
+	// header layout of a plot file (hashmap.go) and the memory bounds of the plotting passes (plot.go)
+	for _, n := range []string{"PosFileCode", "PosVersion", "PosBitLength", "PosType", "PosCheckpoint", "PosPubKeyHash", "PosPubKey", "PosAlignHolder", "PosProofData",
+		"LenFileCode", "LenVersion", "LenBitLength", "LenType", "LenCheckpoint", "LenPubKeyHash", "LenPubKey"} {
+		intFact("plot"+n, "poc/engine/massdb/massdb.v1", n)
+	}
+	intFact("plotDbVersion", "poc/engine/massdb/massdb.v1", "dbVersion")
+	for _, n := range []string{"maxPrePlotMem", "maxPlotMem", "minPrePlotMem", "minPlotMem"} {
+		intFact("plot"+strings.ToUpper(n[:1])+n[1:], "poc/engine/massdb/massdb.v1", n)
+	}
 	strFact("regMassDBV1", v1, "regMassDBV1")
 	// every send on the plotter channel is a `select` case next to a `default` (never blocks under the state lock)
 	for _, x := range []struct{ lean, dir string }{{"keeperSendsNonBlocking", v1}, {"keeperSendsNonBlockingV2", v2}} {
